@@ -93,8 +93,9 @@ def process_chunk(args):
           "endif_deep_disabled": 0, "define_ignored_in_disabled": 0, "nameless_in_disabled": 0,
           "lexerr_in_disabled": 0, "lexerr_selected": 0, "spec_tied": 0, "spec_tied_partial": 0, "spec_tied_missing_name": 0,
           "metamorphic_pairs": 0, "parsed": 0, "selected_tokens_compared": 0, "rule_ii_checked": 0,
-          "rule_iii_checked": 0, "rule_i_checked": 0, "rule_iv_silent": 0, "cpu_s": 0.0}
+          "rule_iii_checked": 0, "rule_i_checked": 0, "rule_iv_silent": 0, "oracle_failures": 0, "cpu_s": 0.0}
     ofail, cfail, sfail, hashes, samples = [], [], [], [], []
+    kept = {}
     for r, tag in zip(res, tags):
         r["tag"] = tag
         cls = r["cls"]
@@ -125,8 +126,13 @@ def process_chunk(args):
             st["spec_tied_missing_name"] += 1 if r.get("spec_missing") else 0
         st["metamorphic_pairs"] += 1 if r["meta"] else 0
         st["parsed"] += 1 if r.get("parse_errors") is not None else 0
-        if r["fails"] and len(ofail) < MAXKEEP:
-            ofail.append(brief(r))
+        if r["fails"]:
+            st["oracle_failures"] += 1
+            # keep a few per class of the oracle (and separately those seen only by the metamorphic form)
+            g = (cls, all("metamorphic" in x["rule"] for x in r["fails"]))
+            kept[g] = kept.get(g, 0) + 1
+            if kept[g] <= 4:
+                ofail.append(brief(r))
         if r["corr"] and len(cfail) < MAXKEEP:
             cfail.append(brief(r))
         if r["spec"] not in (None, "n/a") and len(sfail) < MAXKEEP:
@@ -345,7 +351,7 @@ def run(ctx):
                                      **{k: v for k, v in stats.items() if not isinstance(v, dict) and k not in ("texts", "cpu_s")}}
     ctx.cov["traces_validated_against_impl"] = stats.get("texts", 0)
     ctx.cov["spec_tied_arrangements"] = stats.get("spec_tied", 0)
-    ctx.cov["oracle_failures_kept"] = len(ofail)
+    ctx.cov["oracle_failures"] = stats.get("oracle_failures", 0)
     ctx.cov["correspondence_disagreements_kept"] = len(cfail)
     ctx.cov["spec_vs_oracle_disagreements_kept"] = len(sfail)
     ctx.cov["samples"] = samples[:10]
